@@ -56,6 +56,61 @@ Proof.
   repeat split; assumption.
 Qed.
 
+(* ---------- a RunTest whose handler of last resort reports [lr] (Model.Run.runner_last_resort: a factory
+   that cannot be given last_resort= builds a RunTest whose last resort reports nothing) ---------- *)
+(* the outcome calls of the run: the verdict's outcome when a handler is responsible for the reported
+   exception (or nothing was caught); what the last resort reports - possibly nothing - when nobody is *)
+Definition outs_with (lr : option outcome) (v : outcome * option exc) (d : list (dname * ocontent)) : list tev :=
+  match snd v with
+  | None => [TOut (fst v) d]
+  | Some _ => match lr with Some o => [TOut o d] | None => [] end
+  end.
+Lemma calls_outs_with lr v d : calls (outs_with lr v d) = outs_with lr v d.
+Proof. unfold outs_with. destruct (snd v); [destruct lr|]; reflexivity. Qed.
+
+(* run_from_verdict for any handler of last resort: everything but the outcome call is the same - what
+   propagates, the bodies run, the exceptions caught, the state left behind *)
+Theorem run_from_with_verdict lr p s :
+  exists s' d,
+    run_from_with lr p s = (s', snd (verdict_from p (uh s) (force s)), false)
+    /\ calls (tr s') = calls (tr s) ++ [TStart] ++ outs_with lr (verdict_from p (uh s) (force s)) d ++ [TStop]
+    /\ map shape (log s') = map shape (log s) ++ expected_log p
+    /\ stack s' = []
+    /\ excs s' = collected_run p (force s) /\ uh s' = rev (inserted p) ++ uh s
+    /\ force s' = force s || (negb (skipped p) && forced p).
+Proof.
+  pose proof (run_from_with_spec lr p s) as H. cbv zeta in H.
+  destruct H as (s' & tr0 & R & L & X & F & K & _ & U & T & C0 & _ & _).
+  set (u := rev (inserted p) ++ uh s) in *. set (Y := collected_run p (force s)) in *.
+  assert (Q : exists d, fst (fst (conclude_with lr p (handlers_of u) Y
+                                     (prun (run_events p (force s)) (proj (reset s)))))
+                        = outs_with lr (verdict_from p (uh s) (force s)) d
+                        /\ snd (fst (conclude_with lr p (handlers_of u) Y
+                                     (prun (run_events p (force s)) (proj (reset s)))))
+                           = snd (verdict_from p (uh s) (force s))).
+  { unfold conclude_with, verdict_from, outs_with. fold u Y. unfold skipped.
+    destruct (p_skip p) as [r|]; [eexists; split; reflexivity|].
+    destruct Y as [|x r] eqn:E.
+    - rewrite choose_nil. eexists; split; reflexivity.
+    - destruct (choose_decide u (x :: r)) as (e & Ce & D); [discriminate|]. rewrite Ce.
+      destruct (lookup (handlers_of u) e) as [h|]; destruct D as [D1 D2].
+      + rewrite D1, D2. eexists; split; reflexivity.
+      + rewrite D2. cbn [fst snd]. destruct lr; [eexists | exists []]; split; reflexivity. }
+  destruct Q as (d & Q1 & Q2). exists s', d. rewrite Q2 in R. rewrite Q1 in T.
+  split; [exact R|]. split.
+  { rewrite T, !calls_app, C0, calls_outs_with, <- !app_assoc. reflexivity. }
+  repeat split; assumption.
+Qed.
+
+(* when somebody is responsible for every exception caught, or the last resort reports, there is exactly
+   one outcome call *)
+Lemma outs_with_some o v d : outs_with (Some o) v d = [TOut (match snd v with Some _ => o | None => fst v end) d].
+Proof. unfold outs_with. destruct (snd v); reflexivity. Qed.
+Lemma outs_with_returns lr v d : snd v = None -> outs_with lr v d = [TOut (fst v) d].
+Proof. unfold outs_with. now intros ->. Qed.
+Lemma outs_with_none_raises v d e : snd v = Some e -> outs_with None v d = [].
+Proof. unfold outs_with. now intros ->. Qed.
+
 Lemma verdict_from_fresh p : verdict_from p (p_handlers p) false = verdict_of p.
 Proof. unfold verdict_from, verdict_of. fold (user_handlers p). now rewrite collected_run_raised. Qed.
 
